@@ -69,9 +69,10 @@ PARTIAL = [
     "(two_site_gate_loop_value, single_site_gate_loop_value, tebd_step_loop_value) discharge the two tensordot "
     "identities: the model's own contract_nodes / absorb_into_open_legs sequence is proved to be the contraction "
     "program tensordot(tensordot(P, C), G) (relation Built) whose value is the sum, so only the exact split remains "
-    "a hypothesis (for one two-site gate the local program is renamed into the global labels by a relabelling theorem: "
-    "two_site_gate_loop_value_global; for the whole step, tebd_step_loop_value, the link between the per-gate program "
-    "and the LoopContract of the step labels SLeg is still by the form of the pairs); "
+    "a hypothesis (the local program is renamed into the global labels by a relabelling theorem, for one two-site gate: "
+    "two_site_gate_loop_value_global, and for the whole step: tebd_step_loop_value_global, where every contract of the "
+    "chain is about the value of the model's own program renamed into the step labels SLeg by the injection stepGlob "
+    "and the renamed pairs are proved to be the pairs of the specification fold); "
     "that NumPy's tensordot / the library's routines agree with the model, floating point, expm and the truncated "
     "case are decided per input by the dense oracle and the `value` correspondence",
     "an operator that names no site is skipped by _apply_one_trotter_step (`pass`); the value theorems state this "
